@@ -123,9 +123,9 @@ Definition strip_guards (tp : tplans) : tplans :=
      tp_to := {| pl_ctor := pl_ctor (tp_to tp); pl_alloc := pl_alloc (tp_to tp);
                  pl_stmts := map (fun s => {| st_dst := st_dst s; st_src := st_src s; st_how := st_how s; st_guard := [] |})
                                  (pl_stmts (tp_to tp));
-                 pl_manual := pl_manual (tp_to tp) |};
+                 pl_manual := pl_manual (tp_to tp); pl_reset := pl_reset (tp_to tp) |};
      tp_from := tp_from tp; tp_src_acc := tp_src_acc tp; tp_dst_acc := tp_dst_acc tp;
-     tp_src_ptr := tp_src_ptr tp; tp_dst_ptr := tp_dst_ptr tp |}.
+     tp_src_ptr := tp_src_ptr tp; tp_dst_ptr := tp_dst_ptr tp; tp_mapper_hop := tp_mapper_hop tp |}.
 
 Lemma ex1_unguarded :
   plans_safe (ps_env ex1) (ps_fuel ex1) (map strip_guards (pe_of ex1)) = false
@@ -136,9 +136,9 @@ Proof. vm_compute. split; reflexivity. Qed.
 Definition strip_allocs (tp : tplans) : tplans :=
   {| tp_src := tp_src tp; tp_dst := tp_dst tp; tp_to := tp_to tp;
      tp_from := {| pl_ctor := pl_ctor (tp_from tp); pl_alloc := []; pl_stmts := pl_stmts (tp_from tp);
-                   pl_manual := pl_manual (tp_from tp) |};
+                   pl_manual := pl_manual (tp_from tp); pl_reset := pl_reset (tp_from tp) |};
      tp_src_acc := tp_src_acc tp; tp_dst_acc := tp_dst_acc tp;
-     tp_src_ptr := tp_src_ptr tp; tp_dst_ptr := tp_dst_ptr tp |}.
+     tp_src_ptr := tp_src_ptr tp; tp_dst_ptr := tp_dst_ptr tp; tp_mapper_hop := tp_mapper_hop tp |}.
 
 Lemma ex2_unallocated :
   plans_safe (ps_env ex2) (ps_fuel ex2) (map strip_allocs (pe_of ex2)) = false
@@ -212,3 +212,50 @@ Lemma ex8_func_last :
   /\ want15_to ex8 (VPtr ex8_v) = Some (VPtr (VStruct [("ratio", VInt 3)]))
   /\ pair_guard15 (ps_env ex8) (ps_fuel ex8) (ps_jobs ex8) = false.
 Proof. vm_compute. repeat split; reflexivity. Qed.
+
+(* ex9 (K_map_mapper_ptr_embedded): FromX panics for EVERY receiver -- its own reset
+   `*t = T{}` sets t.Mapper to nil and the next `t.I8ToStr(x)` dereferences it; ToX
+   panics iff the receiver's Mapper is nil.  The pair is outside gen_guard and
+   pair_guard, its plans are rejected by the safety check *)
+Lemma ex9_mapper_ptr :
+  run_from ex9 VNil (VPtr ex9_d) = Panic
+  /\ run_from ex9 (VPtr ex9_dirty) (VPtr ex9_d) = Panic
+  /\ run_to ex9 (VPtr ex9_v_nil) = Panic
+  /\ (exists d, run_to ex9 (VPtr ex9_v) = Ok (VPtr d))
+  /\ has_ty (ps_env ex9) (VPtr ex9_v_nil) (TPtr (TNamed PSrc "T"))
+  /\ has_ty (ps_env ex9) (VPtr ex9_d) (TPtr (TNamed PDst "T"))
+  /\ plans_safe (ps_env ex9) (ps_fuel ex9) (pe_of ex9) = false
+  /\ pair_guard (ps_env ex9) (ps_fuel ex9) (ps_jobs ex9) = false.
+Proof.
+  split; [vm_compute; reflexivity|]. split; [vm_compute; reflexivity|]. split; [vm_compute; reflexivity|].
+  split; [eexists; vm_compute; reflexivity|].
+  split; [apply (has_ty_b_sound _ 8); vm_compute; reflexivity|].
+  split; [apply (has_ty_b_sound _ 8); vm_compute; reflexivity|].
+  split; vm_compute; reflexivity.
+Qed.
+
+(* the reset matters: the same FromX plan of ex2 without it keeps what the plan does not overwrite *)
+Definition no_reset (tp : tplans) : tplans :=
+  {| tp_src := tp_src tp; tp_dst := tp_dst tp; tp_to := tp_to tp;
+     tp_from := {| pl_ctor := pl_ctor (tp_from tp); pl_alloc := pl_alloc (tp_from tp);
+                   pl_stmts := filter (fun s => negb (String.eqb (r_name (st_dst s)) "Name")) (pl_stmts (tp_from tp));
+                   pl_manual := pl_manual (tp_from tp); pl_reset := false |};
+     tp_src_acc := tp_src_acc tp; tp_dst_acc := tp_dst_acc tp;
+     tp_src_ptr := tp_src_ptr tp; tp_dst_ptr := tp_dst_ptr tp; tp_mapper_hop := tp_mapper_hop tp |}.
+
+Definition ex2_dirty : val :=
+  VStruct [("Emb", VNil); ("ID", VInt 7); ("Name", VStr "previous"); ("Tags", VNil)].
+
+(* with the reset (the real plan, minus the statement for Name) the previous Name is gone;
+   without it the previous Name survives: the flag is what makes the result independent
+   of the receiver's content *)
+Lemma ex2_reset_matters :
+  let pe := map no_reset (pe_of ex2) in
+  let run r := eval_from (ps_env ex2) (ps_fuel ex2) (usem_of ex2) pe run_fuel "T" r (VPtr ex2_v) in
+  (exists s, run (VPtr ex2_dirty) = Ok (VPtr s) /\ get_path s ["Name"] = Ok (VStr "previous"))
+  /\ (exists s, run VNil = Ok (VPtr s) /\ get_path s ["Name"] = Ok (VStr ""))
+  /\ run (VPtr ex2_dirty) <> run VNil.
+Proof.
+  cbv zeta. split; [eexists; split; vm_compute; reflexivity|]. split; [eexists; split; vm_compute; reflexivity|].
+  vm_compute. discriminate.
+Qed.
